@@ -10,6 +10,7 @@ CONSTANTS Accts = {"a1"}
           NTips = 1
           Cap = 2
           HistLen = 0
+          Foreign = FALSE
           Crash = TRUE
 INVARIANTS NonceContiguous AffordableTotal IndexMatchesStore LimboRetains LimboSound PerAccountLimit
 PROPERTIES TipRespected ReopenReproduces WithinCapacity
